@@ -37,9 +37,10 @@ theorem scanLineStart_hws_prefix {u : List Char} (r : List Char) (hu : ∀ x ∈
     simpa using ih (fun x hx => hu x (by simp [hx]))
 
 /-- what precedes the current text in the source: nothing (`first`) or something that ends in a
-    character that is neither whitespace nor a line break (the end of a tag) -/
+    character that is not whitespace, possibly followed by horizontal whitespace (the end of a tag) -/
 def CtxOk (first : Bool) (ctx : List Char) : Prop :=
-  (first = true ∧ ctx = []) ∨ (first = false ∧ ∃ c r, ctx = c :: r ∧ isWs c = false)
+  (first = true ∧ ctx = []) ∨
+    (first = false ∧ ∃ u c r, ctx = u ++ c :: r ∧ (∀ x ∈ u, isHws x = true) ∧ isWs c = false)
 
 theorem not_nl_of_not_ws {c : Char} (h : isWs c = false) : isNl c = false := by
   cases hn : isNl c with
@@ -60,9 +61,10 @@ theorem scanLineStart_eq_atLineStart {first : Bool} {ctx : List Char} (t : List 
   rw [this, List.append_assoc, scanLineStart_hws_prefix _ (by simpa using h.sat)]
   rcases h.stop with rfl | ⟨b', c, rfl, hcc⟩
   · rcases hc with hc | ⟨c, hct, hch⟩
-    · rcases hc with ⟨rfl, rfl⟩ | ⟨rfl, c, r, rfl, hw⟩
+    · rcases hc with ⟨rfl, rfl⟩ | ⟨rfl, u', c, r, rfl, hu', hw⟩
       · simp [scanLineStart]
-      · simp [scanLineStart, hw, not_nl_of_not_ws hw]
+      · rw [List.reverse_nil, List.nil_append, scanLineStart_hws_prefix _ hu']
+        simp [scanLineStart, hw, not_nl_of_not_ws hw]
     · rw [h.eq, List.nil_append] at hct
       rw [h.sat c hct] at hch; cases hch
   · simp only [List.reverse_append, List.reverse_cons, List.reverse_nil, List.nil_append,
@@ -103,13 +105,26 @@ theorem lineStartP_eq {first : Bool} {ctx : List Char} (t : List Char) (hc : Ctx
   rw [this, List.append_assoc, dropWhile_st_prefix _ (by simpa using h.sat)]
   rcases h.stop with rfl | ⟨b', c, rfl, hcc⟩
   · rcases hc with hc | ⟨c, hct, hch⟩
-    · rcases hc with ⟨rfl, rfl⟩ | ⟨rfl, c, r, rfl, hw⟩
+    · rcases hc with ⟨rfl, rfl⟩ | ⟨rfl, u', c, r, rfl, hu', hw⟩
       · simp
       · have hst : isSt c = false := by
           cases hs : isSt c with
           | false => rfl
           | true => rw [isHws_isWs (isSt_isHws hs)] at hw; cases hw
-        simp [List.dropWhile_cons, hst, not_nl_of_not_ws hw]
+        -- the scan over spaces and tabs stops inside the blanks (at a blank that is neither) or at `c`
+        have key : ∀ (v : List Char), (∀ x ∈ v, isHws x = true) →
+            (match (v ++ c :: r).dropWhile isSt with
+              | [] => true
+              | c :: _ => isNl c) = false := by
+          intro v hv
+          induction v with
+          | nil => simp [List.dropWhile_cons, hst, not_nl_of_not_ws hw]
+          | cons a v ih =>
+            simp only [List.cons_append, List.dropWhile_cons]
+            cases ha : isSt a with
+            | true => simpa using ih (fun x hx => hv x (by simp [hx]))
+            | false => simp [isHws_not_nl (hv a (by simp))]
+        simpa using key u' hu'
     · rw [h.eq, List.nil_append] at hct
       rw [isSt_isHws (h.sat c hct)] at hch; cases hch
   · simp [List.dropWhile_cons, hcc]
